@@ -121,6 +121,14 @@ func (s *objectStore) delete(o Object) {
 	}
 }
 
+// purge forgets all the objects of a kind
+func (s *objectStore) purge(of Object) {
+	s.Lock()
+	defer s.Unlock()
+
+	delete(s.m, stype(of))
+}
+
 func (s *objectStore) count(of Object) (n int) {
 	s.RLock()
 	defer s.RUnlock()
@@ -591,6 +599,10 @@ func (db *DB) Create(o Object, s Schema) (err error) {
 		if err = es.update(&s); err != nil {
 			return
 		}
+
+		// the cache is not kept up to date while the settings say not to use
+		// it: what it holds may be stale the next time they say to use it
+		db.cache.purge(o)
 
 		return db.saveSchema(o, es, true)
 
